@@ -277,7 +277,12 @@ def run(chk):
             ops = opclass(methods[k])
             src = sources.get(k, "")
             if k < len(index):
-                tag = ops[0]
+                prog = methods[k]["prog"]
+                if len(prog) <= 2:
+                    tag = ops[0]                 # a one-operation method of the model
+                else:                            # a template of the model (branchy test, aliasing, propagation): identified by its instruction sequence
+                    import hashlib
+                    tag = "model-template-" + hashlib.sha1(repr([(i["op"], i["a"], i["b"], i["c"], i["lit"], i["t"]) for i in prog]).encode()).hexdigest()[:10]
             else:
                 tag = "structured-corpus-method-%d" % structured_no[k]
             sig = "%s:%s" % (name, tag)
